@@ -381,6 +381,21 @@ func TestC20SingleEdits(t *testing.T) {
 				}
 			}
 		}
+		// every transport of a Diameter section together with the removal of that section's tls block
+		k := 0
+		for _, sec := range []string{"configuration.rfDiameter", "configuration.abmfDiameter"} {
+			for _, proto := range []string{"tcp", "tcp4", "tcp6", "sctp", "udp", "", "TCP", "unix"} {
+				for _, op := range []string{"drop", "null"} {
+					k++
+					if k%nsh != shard {
+						continue
+					}
+					if !yield(C20Case{Edits: []Edit{{Path: sec + ".protocol", Op: "set", Val: proto}, {Path: sec + ".tls", Op: op}}}) {
+						return
+					}
+				}
+			}
+		}
 		// the sections a key log could touch, started with a key log file
 		for j, p := range []string{"configuration.sbi.tls", "configuration.sbi.tls.pem", "configuration.sbi.tls.key", "configuration.nrfCertPem"} {
 			if j%nsh == shard {
